@@ -345,6 +345,9 @@ func c16KnownRegion(fn string, n ref.Num, mode d128.RoundingMode) string {
 
 func genExpArg(t *rapid.T, fn string) D {
 	neg := genSign(t)
+	if ir(t, 0, 39, "zeroArg") == 0 {
+		return genZero(t) // zeros of either sign at any exponent: Exp(0) = 1, Expm1(+-0) = +-0
+	}
 	switch ir(t, 0, 9, "argKind") {
 	case 0:
 		// magnitude uniform over the whole range of tiny arguments
@@ -406,6 +409,9 @@ func genExpArg(t *rapid.T, fn string) D {
 func genLogArg(t *rapid.T, fn string) D {
 	if fn == "Log1p" {
 		neg := genSign(t)
+		if ir(t, 0, 39, "zeroArg") == 0 {
+			return genZero(t)
+		}
 		switch ir(t, 0, 7, "argKind") {
 		case 0:
 			c := genCoef(t)
